@@ -24,12 +24,6 @@ GenNext == /\ Next
 GenDone == sph = "done" /\ UNCHANGED gvars
 GenSpec == GenInit /\ [][GenNext \/ GenDone]_gvars
 
-ViaNum(v) == CASE v = "mock" -> 1 [] v = "udp" -> 2 [] OTHER -> 3
-ResJson(r) == IF r.ok THEN [ok |-> [out |-> r.out, from |-> r.from - 1, via |-> ViaNum(r.via)]]
-              ELSE [err |-> r.kind]
-FoundJson(r) == IF r.found THEN [found |-> [cand |-> r.cand, empty |-> r.empty, n |-> r.n]]
-                ELSE [err |-> r.kind]
-
 QueryCase ==
   LET sc == hist[1].sc
   IN ToJson([in |-> [fam |-> "query", ns |-> cfg.ns, tmo |-> cfg.tmo,
